@@ -21,7 +21,7 @@ RULE = (
     "a negative value, a forward reference, or a directive/file that crosses a bank end; distinct by case hash."
 )
 LEVEL_TEXT = "Differential exploration: every generated directive sequence is compared byte-for-byte and address-for-address with a direct model (value mod 256^w little-endian; file bytes verbatim; textbook bus advance)."
-LEVEL_NOTE = "Trusted: vlib/model/busmodel.py, vlib/model/expr.py. `\\'` inside .ascii is not generated; zero-length .incbin only checks the symbols; programs never run past the last mapped bank."
+LEVEL_NOTE = "Trusted: vlib/model/busmodel.py, vlib/model/expr.py. `\\'` inside .ascii may stand for both characters or for the quote alone (either reading accepted for the whole program); zero-length .incbin only checks the symbols; programs never run past the last mapped bank."
 DESIGN_REF = "DESIGN.md §3 C07"
 ASSUMPTIONS = ["directive-context expressions use only operators that context lexes (* + - << >> &)"]
 
@@ -62,7 +62,13 @@ def _items(rng):
             cnt = rng.choice([1, 1, 2, 3, 5, 8, 17, 40])
             items.append({"d": kind, "vals": [_value_tree(rng) for _ in range(cnt)]})
         elif kind == "ascii":
-            items.append({"d": "ascii", "s": "".join(rng.choice(ASCII_ALPHABET) for _ in range(rng.randint(1, 40)))})
+            txt = "".join(rng.choice(ASCII_ALPHABET) for _ in range(rng.randint(1, 40)))
+            if rng.random() < 0.25:
+                # an escaped quote at the start, in the middle or as the very last character of the text
+                q = "\\'"
+                where = rng.choice(["start", "mid", "end", "end", "only"])
+                txt = q + txt if where == "start" else txt[: len(txt) // 2] + q + txt[len(txt) // 2:] if where == "mid" else txt + q if where == "end" else q
+            items.append({"d": "ascii", "s": txt})
         else:
             k = rng.random()
             ln = rng.choice(FILE_LENS) if k < 0.4 else rng.randint(0, 300) if k < 0.7 else rng.randint(0, 70000)
@@ -100,15 +106,39 @@ def hyp_examples(tier):
     return 12000 if tier == "quick" else 300000
 
 
+_CONV = ["verbatim"]
+
+
+def _ascii_bytes(text: str) -> bytes:
+    """bytes of a quoted text.  The statement does not say whether `\\'` stands for the two characters or for the quote
+    alone: either reading is accepted, applied to the whole program (see run_case)"""
+    return (text.replace("\\'", "'") if _CONV[0] == "unescaped" else text).encode("ascii")
+
+
 def _size(item) -> int:
     if item["d"] in WIDTH:
         return WIDTH[item["d"]] * len(item["vals"])
     if item["d"] == "ascii":
-        return len(item["s"].encode("ascii"))
+        return len(_ascii_bytes(item["s"]))
     return len(driver.file_bytes(item["spec"]))
 
 
 def run_case(case) -> Outcome:
+    _CONV[0] = "verbatim"
+    out = _run_case(case)
+    if out.violations and any(it["d"] == "ascii" and "\\'" in it["s"] for it in case["items"]):
+        _CONV[0] = "unescaped"
+        try:
+            alt = _run_case(case)
+        finally:
+            _CONV[0] = "verbatim"
+        if not alt.violations:
+            alt.labels.append("escaped-quote:unescaped-reading")
+            return alt
+    return out
+
+
+def _run_case(case) -> Outcome:
     rom, org = case["rom"], case["org"]
     model = busmodel.builtin(rom)
     items = case["items"]
@@ -171,7 +201,9 @@ def run_case(case) -> Outcome:
             src.append(f".{kind} " + ", ".join(texts))
         elif kind == "ascii":
             src.append(f".ascii '{it['s']}'")
-            expected += it["s"].encode("ascii")
+            expected += _ascii_bytes(it["s"])
+            if "\\'" in it["s"]:
+                labels.append("escaped-quote")
         else:
             data = driver.file_bytes(it["spec"])
             files[it["f"]] = it["spec"]
